@@ -64,6 +64,8 @@ def run(ctx):
             if i < 8:     # corpus: a failure that is only RETURNED (special file), several workers: copy() must return Err
                 driver = ['parfile', 'parblock'][i % 2]; workers = [4, 8][(i // 2) % 2]; updater = ['record', 'noop'][(i // 4) % 2]
                 fault = True; forced = f'fail mknodat fifo 1 {E["EPERM"]}'
+            elif i < 12:  # corpus: a source sub-directory that cannot be listed (EACCES, as for an unprivileged user): Error or Err, never silence
+                fault = True; forced = f'fail openat =S/sub 1 {E["EACCES"]}'
             if rng.random() < 0.5:
                 plan.append(f'sched {ctx.seed * 13 + i} {rng.choice(["pct", "delay"])} {rng.randint(1, 3)}')
             if fault:
@@ -126,6 +128,31 @@ def run(ctx):
                     bad = 'destination incomplete but neither an error update was delivered nor did copy() return an error'
             if bad:
                 ctx.violation(f'{label}.json', dict(info, monitor=m, transferred=transferred), f'C12: {bad} ({driver}, {updater}, block {bsize}, plan {plan})')
+        # ---- the provided ChannelUpdater under REAL parallelism (no supervisor: its bookkeeping is a few atomic operations with no
+        # system call in between, so only free-running threads can interleave there): totals exact, never above 100 %
+        for i in range(6 if ctx.quick else 40):
+            shutil.rmtree(root + '/S', ignore_errors=True); shutil.rmtree(root + '/D', ignore_errors=True)
+            os.makedirs(root + '/S')
+            lens = [4096 * 400, 4096 * 300, 4096 * 500, 4096 * 272]
+            for k, ln in enumerate(lens):
+                with open(f'{root}/S/f{k}', 'wb') as fh: fh.write(os.urandom(ln))
+            total = sum(lens)
+            driver = ['parblock', 'parfile'][i % 2]
+            argv = ['--driver', driver, '--workers', '8', '--block-size', '4096', '--updater', 'channel', '--', 'S', 'D']
+            r = scen.run_xcp(root, argv, timeout=120, binary=probe, trace=False)
+            ups, result, closed = parse_stream(r.stdout_full if hasattr(r, 'stdout_full') else r.stdout)
+            m = core.ask(core.MODEL, [f"updates 4096 | {' '.join(ups)}"])[0]
+            kv = dict(t.split('=') for t in m.split()[1:]) if m.startswith('ok') else {}
+            ctx.count(f'free_running_channel.{driver}.{result}'); ctx.case(('free-running-channel', i, driver), True)
+            bad = None
+            if result != 'ok' or not closed or not kv:
+                bad = f'free-running copy failed or the stream is unreadable: result {result}, closed {closed}, monitor {m[:80]}'
+            elif kv['prefix'] != 'true' or int(kv['copied']) > total:
+                bad = f"more bytes reported copied ({kv['copied']}) than announced/exist ({total})"
+            elif int(kv['size']) != total:
+                bad = f"announced {kv['size']} differs from the files' total {total}"
+            if bad:
+                ctx.violation(f'free-running-{i}.json', dict(argv=argv, lens=lens, stream_len=len(ups), monitor=m), f'C12: {bad} ({driver}, ChannelUpdater, 8 free-running workers)')
         # ---- a genuinely short copy_file_range on a block that is NOT the last of its file (parblock): the retry must ask for the
         # remainder only, and the block's Copied update must be the block's length — never more than was announced
         for i in range(6 if ctx.quick else 40):
@@ -174,7 +201,7 @@ def run(ctx):
                 ctx.violation(f'stale-link-{i}.json', dict(argv=argv, stream=ups[:50], result=result, dest_link=os.readlink(root + '/D/S/current')),
                               f'C12: destination incomplete (D/S/current still points to {os.readlink(root + "/D/S/current")!r}, the source link to rel/v2) but no error update and copy() returned Ok ({driver}, {updater})')
     ctx.cov['rule'] = ('trees of 1..40 (thorough 300) files of length {0,1,7,100,max,random} plus a link and a fifo x driver x workers {1,2,8} x block {7,4096,1MB,u64::MAX} x updater {recording (optionally stalling in send(Size)), '
-                       'ChannelUpdater, Noop} x half under perturbed schedules x 30% with one injected fault; one genuinely short copy_file_range on a middle block (parblock); a stale link left by an earlier copy. distinct = distinct case; non-trivial = some file non-empty')
+                       'ChannelUpdater, Noop} x half under perturbed schedules x 30% with one injected fault; one genuinely short copy_file_range on a middle block (parblock); a stale link left by an earlier copy; an unlistable source sub-directory; ChannelUpdater with 8 free-running workers (no supervisor). distinct = distinct case; non-trivial = some file non-empty')
     ctx.assumptions += ["crossbeam's channel is linearizable (appends atomic)", 'bytes actually transferred = sum of the positive returns of data-moving calls on destination files in the trace']
 
 
